@@ -8,6 +8,7 @@
 mod abs;
 mod fam_authz;
 mod fam_eval;
+mod fam_pset;
 mod fam_store;
 mod gen;
 mod render;
@@ -53,6 +54,7 @@ fn family(name: &str) -> Option<(Runner, Driver)> {
         "eval" => (fam_eval::run as Runner, fam_eval::drive as Driver),
         "authz" => (fam_authz::run, fam_authz::drive),
         "store" => (fam_store::run, fam_store::drive),
+        "pset" => (fam_pset::run, fam_pset::drive),
         _ => return None,
     })
 }
